@@ -34,9 +34,9 @@ P = {
  'C09': ('other', 'stack-discipline rules on _group_matching + table agreement + AST interpretation of _group/group_tokens on 144 small bracketed groups with synthetic passes',
          'The matcher shape, producibility of open/close tokens with exact types, pass order; that the joining driver never takes a delimiter of the list it runs on into a new group and still groups when a delimiter is only looked at is decided by evaluating the driver source on enumerated groups.',
          'Not decided: equality with a reference matcher on arbitrary input.', '3 C09'),
- 'C10': ('other', 'filter order and option implication; clause-keyword table vs lexer output; AST interpretation of StripWhitespaceFilter.process on 282 small token trees and of _stripws_default on 62 patterns; handler/table agreement; fresh-object rule',
+ 'C10': ('other', 'filter order and option implication; clause-keyword table vs lexer output; AST interpretation of StripWhitespaceFilter.process on 282 small token trees, of strip_whitespace + ReindentFilter.process on 26 statement trees and of _stripws_default on 62 patterns; handler/table agreement; fresh-object rule',
          'strip_whitespace normal form decided on enumerated small trees by evaluating the filter source (no edge whitespace, no run of two, parentheses tight); reindent: every clause keyword in every spelling the lexer emits is selected by the split lookup, each group handler recognises every delimiter word of its class; operator spacing two-sided.',
-         'Not decided: the reindent line structure on arbitrary statements (offsets/indent state); fixed-point property of reindent.', '3 C10'),
+         'Bounded: 26 statement trees for reindent, trees of up to 4 children per list for strip_whitespace. Not decided: reindent_aligned layout; the fixed-point clause.', '3 C10'),
  'C11': ('other', 'normal-form agreement between matcher literals and lexer output (case, inner whitespace), vocabulary shadowing',
          'Every comparison of keyword text against a constant goes through a normal form erasing case and inner whitespace; multi-word rules use \\s+; neighbour lookups skip whitespace by containment.',
          'Not decided: equality of tree shapes under respelling as such.', '3 C11'),
